@@ -92,7 +92,9 @@ FAMILY = [
     ("bell_like", [("q", 2)], [], [("H", [], [("q", 0)]), ("CX", [], [("q", 0), ("q", 1)]), ("Rz", [0.3], [("q", 1)]), ("Ry", [0.2], [("q", 0)])], []),
     ("two_registers", [("b", 1), ("a", 2)], [], [("X", [], [("a", 0)]), ("Ry", [0.3], [("b", 0)]), ("Rz", [0.7], [("a", 1)]), ("CX", [], [("a", 0), ("b", 0)]), ("H", [], [("a", 1)])], []),
     ("three_registers", [("q", 1), ("r", 2), ("p", 1)], [], [("Ry", [0.4], [("q", 0)]), ("CX", [], [("q", 0), ("r", 1)]), ("Rx", [0.3], [("p", 0)]), ("CZ", [], [("p", 0), ("r", 0)]), ("Rz", [0.9], [("r", 0)]), ("H", [], [("r", 0)])], []),
-    ("params", [("q", 2)], [], [("Ry", ["pb"], [("q", 0)]), ("Rz", ["pa"], [("q", 1)]), ("Rx", ["pc"], [("q", 1)]), ("CX", [], [("q", 0), ("q", 1)])], []),
+    ("params", [("q", 2)], [], [("Ry", ["pb"], [("q", 0)]), ("Rx", ["pc"], [("q", 1)]), ("Rz", ["pa"], [("q", 1)]), ("CX", [], [("q", 0), ("q", 1)])], []),
+    ("params_four", [("q", 2)], [], [("Ry", ["d"], [("q", 0)]), ("Rz", ["a"], [("q", 0)]), ("Rx", ["c"], [("q", 1)]), ("Rz", ["b"], [("q", 1)]), ("CX", [], [("q", 1), ("q", 0)])], []),
+    ("params_cab", [("q", 1)], [], [("Rx", ["c"], [("q", 0)]), ("Rz", ["a"], [("q", 0)]), ("Ry", ["b"], [("q", 0)])], []),
     ("params_registers", [("b", 1), ("a", 2)], [], [("Rx", ["t2"], [("b", 0)]), ("Ry", ["t10"], [("a", 1)]), ("Rz", ["t1"], [("a", 0)]), ("H", [], [("a", 0)]), ("CX", [], [("b", 0), ("a", 0)])], []),
     ("measure_one", [("q", 2)], [("c", 1)], [("X", [], [("q", 1)]), ("Ry", [0.3], [("q", 0)])], [(("q", 1), ("c", 0))]),
     ("measure_registers", [("b", 1), ("a", 2)], [("d", 1), ("c", 2)], [("X", [], [("a", 0)]), ("CX", [], [("a", 0), ("b", 0)]), ("Ry", [0.3], [("a", 1)])],
@@ -265,14 +267,16 @@ def judge(cs, states, bits, refs):
 def stub_cases():
     """declared stubs: (description, circuit spec index, stub source, must be accepted)"""
     return [
-        ("matching stub, two qubits", 0, "def s(a: qubit, b: qubit) -> None: ...", True),
-        ("one qubit too few", 0, "def s(a: qubit) -> None: ...", False),
-        ("one qubit too many", 0, "def s(a: qubit, b: qubit, c: qubit) -> None: ...", False),
-        ("matching stub with a measurement result", 5, "def s(a: qubit, b: qubit) -> bool: ...", True),
-        ("missing measurement result", 5, "def s(a: qubit, b: qubit) -> None: ...", False),
-        ("matching stub with parameters", 3, "def s(a: qubit, b: qubit, x: angle, y: angle, z: angle) -> None: ...", True),
-        ("a parameter too few", 3, "def s(a: qubit, b: qubit, x: angle, y: angle) -> None: ...", False),
-        ("owned instead of borrowed qubit", 0, "def s(a: qubit @owned, b: qubit) -> None: ...", False),
+        ("matching stub, two qubits", "bell_like", "def s(a: qubit, b: qubit) -> None: ...", True),
+        ("one qubit too few", "bell_like", "def s(a: qubit) -> None: ...", False),
+        ("one qubit too many", "bell_like", "def s(a: qubit, b: qubit, c: qubit) -> None: ...", False),
+        ("matching stub with a measurement result", "measure_one", "def s(a: qubit, b: qubit) -> bool: ...", True),
+        ("missing measurement result", "measure_one", "def s(a: qubit, b: qubit) -> None: ...", False),
+        ("matching stub with parameters", "params", "def s(a: qubit, b: qubit, x: angle, y: angle, z: angle) -> None: ...", True),
+        ("two results for a two-bit register", "measure_params", "def s(a: qubit, b: qubit, c: qubit, x: angle, y: angle) -> tuple[bool, bool]: ...", True),
+        ("one result for a two-bit register", "measure_params", "def s(a: qubit, b: qubit, c: qubit, x: angle, y: angle) -> bool: ...", False),
+        ("a parameter too few", "params", "def s(a: qubit, b: qubit, x: angle, y: angle) -> None: ...", False),
+        ("owned instead of borrowed qubit", "bell_like", "def s(a: qubit @owned, b: qubit) -> None: ...", False),
     ]
 
 def run_stubs():
@@ -283,7 +287,7 @@ def run_stubs():
         src = "import builtins\nCIRC = builtins._c26_circ\n" + src
         open(fn, "w").write(src)
         import builtins
-        builtins._c26_circ = build(FAMILY[idx])
+        builtins._c26_circ = build(next(sp for sp in FAMILY if sp[0] == idx))
         sp_ = importlib.util.spec_from_file_location("c26_stub", fn); m = importlib.util.module_from_spec(sp_); sys.modules["c26_stub"] = m
         try:
             sp_.loader.exec_module(m)
@@ -293,7 +297,7 @@ def run_stubs():
                 got = False
             n += 1
             if got != want:
-                bad.append(f"stub `{stub}` for circuit {FAMILY[idx][0]} ({what}): {'accepted' if got else 'rejected'}, must be {'accepted' if want else 'rejected'}")
+                bad.append(f"stub `{stub}` for circuit {idx} ({what}): {'accepted' if got else 'rejected'}, must be {'accepted' if want else 'rejected'}")
         finally:
             shutil.rmtree(d, ignore_errors=True); sys.modules.pop("c26_stub", None)
     return bad, n
@@ -308,13 +312,26 @@ bad = None; n = 0
 big = [c for c in cs if build(c[0]).n_qubits > 6]
 small = [c for c in cs if build(c[0]).n_qubits <= 6]
 groups = [small[o:o + 12] for o in range(0, len(small), 12)] + [[c] for c in big]
-for batch in groups:
-    states, bits, refs, src = run_cases(batch)
+def run_group(batch):
+    global bad, n
+    try:
+        states, bits, refs, src = run_cases(batch)
+    except GuppyError as ex:
+        if len(batch) == 1:
+            n += 1
+            if bad is None:
+                spec, ua, inp = batch[0]
+                bad = {"circuit": spec[0], "use_arrays": ua, "more": 0,
+                       "detail": f"{spec[0]} (use_arrays={ua}): a program that calls the loaded circuit with one qubit per circuit qubit (registers in lexicographic order), one angle per symbol and one result per bit was rejected: {type(ex.error).__name__}"}
+            return
+        h_ = len(batch) // 2; run_group(batch[:h_]); run_group(batch[h_:]); return
     n += len(batch)
     b = judge(batch, states, bits, refs)
     if b and bad is None:
         k, why = b[0]
         bad = {"circuit": batch[k][0][0], "use_arrays": batch[k][1], "detail": why, "more": len(b)}
+for batch in groups:
+    run_group(batch)
     if bad: break
 stub_bad, n_stub = ([], 0)
 if I_["chunk"] == 0 and bad is None:
